@@ -78,6 +78,16 @@ def pair(client_kind, server_kind):
 
 
 def client_transport(kind, ws, tasks):
+    from harness.glue import bound
+    return bound(_client_transport(kind, ws, tasks))
+
+
+def server_transport(kind, ws, tasks):
+    from harness.glue import bound
+    return bound(_server_transport(kind, ws, tasks))
+
+
+def _client_transport(kind, ws, tasks):
     if kind == 'aiohttp_client':
         from rsocket.transports.aiohttp_websocket import TransportAioHttpClient
         return TransportAioHttpClient(websocket=ws)
@@ -95,7 +105,7 @@ def client_transport(kind, ws, tasks):
     raise ValueError(kind)
 
 
-def server_transport(kind, ws, tasks):
+def _server_transport(kind, ws, tasks):
     if kind == 'http3':
         from rsocket.transports.http3_transport import Http3TransportWebsocket
         return Http3TransportWebsocket(ws)
@@ -239,8 +249,9 @@ async def run(loop, case):
         from rsocket.transports.aioquic_transport import RSocketQuicTransport
         pa, pb = quic_pair(case.get('cuts'), case.get('cuts'))
         wa = None
-        server = RSocketServer(RSocketQuicTransport(pb), handler_factory=Handler, fragment_size_bytes=case['frag'])
-        client = RSocketClient(single_transport_provider(RSocketQuicTransport(pa)), fragment_size_bytes=case['frag'])
+        from harness.glue import bound
+        server = RSocketServer(bound(RSocketQuicTransport(pb)), handler_factory=Handler, fragment_size_bytes=case['frag'])
+        client = RSocketClient(single_transport_provider(bound(RSocketQuicTransport(pa))), fragment_size_bytes=case['frag'])
     else:
         wa, wb = pair(case['client'], case['server'])
         server = RSocketServer(server_transport(case['server'], wb, tasks), handler_factory=Handler,
